@@ -138,7 +138,7 @@ pub fn check(opts: &CheckOpts) -> CheckResult {
     );
     let done = Arc::new(AtomicBool::new(false));
 
-    // watchdog: a single run that takes longer than 60 s is a hang
+    // watchdog: a single run that takes longer than 20 s (normal: well under 1 ms) is a hang
     let hang: Arc<Mutex<Option<u64>>> = Arc::new(Mutex::new(None));
     let wd = {
         let beats = beats.clone();
@@ -149,7 +149,7 @@ pub fn check(opts: &CheckOpts) -> CheckResult {
                 std::thread::sleep(Duration::from_millis(500));
                 for b in beats.iter() {
                     let idx = b.index.load(Ordering::Relaxed);
-                    if idx > 0 && b.since.lock().unwrap().elapsed() > Duration::from_secs(60) {
+                    if idx > 0 && b.since.lock().unwrap().elapsed() > Duration::from_secs(20) {
                         *hang.lock().unwrap() = Some(idx - 1);
                         return;
                     }
@@ -238,7 +238,7 @@ pub fn check(opts: &CheckOpts) -> CheckResult {
         let mut ev = evaluate_stub();
         ev.violation = Some(crate::oracle::Violation {
             oracle: "hang",
-            detail: format!("run {i} did not finish within 60 s (every next() must return)"),
+            detail: format!("run {i} did not finish within 20 s (every next() must return)"),
         });
         violations.insert(
             0,
@@ -315,6 +315,7 @@ fn evaluate_stub() -> Eval {
         run_static: false,
         inspect: None,
         max_steps: 1,
+        continue_after_error: false,
     };
     evaluate(Prop::C02, &case)
 }
@@ -437,12 +438,42 @@ fn evidence_json(
 // ---------------------------------------------------------------------------------------
 // minimisation
 
+/// Evaluate a case on a helper thread; a case that does not finish in time is reported as a
+/// violation of bounded liveness (oracle `hang`). The helper thread cannot be killed and is
+/// abandoned (the process exits soon after a violation has been reported).
+pub fn evaluate_guarded(prop: Prop, case: &Case, timeout: Duration) -> Eval {
+    let (tx, rx) = std::sync::mpsc::channel();
+    let c = case.clone();
+    let spawned = std::thread::Builder::new()
+        .stack_size(64 << 20)
+        .spawn(move || {
+            let _ = tx.send(evaluate(prop, &c));
+        });
+    if spawned.is_err() {
+        return evaluate(prop, case);
+    }
+    match rx.recv_timeout(timeout) {
+        Ok(ev) => ev,
+        Err(_) => {
+            let mut ev = evaluate_stub();
+            ev.violation = Some(crate::oracle::Violation {
+                oracle: "hang",
+                detail: format!(
+                    "the simulated run did not finish within {} s (every next() must return)",
+                    timeout.as_secs()
+                ),
+            });
+            ev
+        }
+    }
+}
+
 fn same_violation(prop: Prop, case: &Case, oracle: &str, budget: &mut u32) -> bool {
     if *budget == 0 {
         return false;
     }
     *budget -= 1;
-    let ev = evaluate(prop, case);
+    let ev = evaluate_guarded(prop, case, Duration::from_secs(if oracle == "hang" { 3 } else { 10 }));
     ev.harness_error.is_none()
         && ev
             .violation
@@ -868,8 +899,12 @@ fn whiles_intact(before: &Case, after: &Case) -> bool {
 pub fn shrink(prop: Prop, case: &Case, oracle: &str) -> (Case, u32) {
     let mut best = case.clone();
     let mut budget = 2000u32;
-    if oracle.ends_with(".accept") || oracle == "hang" {
+    if oracle.ends_with(".accept") {
         return (best, 0);
+    }
+    if oracle == "hang" {
+        // every candidate that still hangs costs its full timeout
+        budget = 60;
     }
     loop {
         let mut improved = false;
@@ -931,7 +966,12 @@ pub fn replay(path: &str) -> Result<ReplayOutcome, String> {
     let j = json::parse(&text)?;
     let prop = Prop::from_id(j.req("property")?.as_str()?).ok_or("unknown property")?;
     let case = Case::from_json(j.req("case")?)?;
-    let eval = evaluate(prop, &case);
+    let expected = j.req("oracle")?.as_str()?;
+    let eval = evaluate_guarded(
+        prop,
+        &case,
+        Duration::from_secs(if expected == "hang" { 10 } else { 120 }),
+    );
     Ok(ReplayOutcome {
         prop,
         expected_oracle: j.req("oracle")?.as_str()?.to_string(),
